@@ -2,6 +2,7 @@ package core
 
 import (
 	"bytes"
+	"context"
 	"encoding/json"
 	"fmt"
 	"os"
@@ -44,6 +45,19 @@ type Leg struct {
 func WorkerMain(e Engine, opt RunOpt, seed uint64, start, stride, count, offset int, deadline time.Time, progress string, hashFile string) {
 	out := WorkerOut{Agg: NewAgg()}
 	var hashes strings.Builder
+	// watchdog: a run that hangs (a wedged schedule, an endless loop in the
+	// code under test) must not hang the check. Wall clock, but not on any
+	// decision path: it only ever kills the process, with exit status 3.
+	limit := 180 * time.Second
+	if v, err := strconv.Atoi(os.Getenv("VERIFSIM_WATCHDOG_S")); err == nil && v > 0 {
+		limit = time.Duration(v) * time.Second
+	}
+	inFlight := -1
+	wd := time.AfterFunc(limit, func() {
+		fmt.Fprintf(os.Stderr, "WATCHDOG: run %d did not finish within %v\n", inFlight, limit)
+		os.Exit(3)
+	})
+	defer wd.Stop()
 	seen := map[string]bool{}
 	for i := start; i < count; i += stride {
 		if !deadline.IsZero() && time.Now().After(deadline) {
@@ -51,6 +65,8 @@ func WorkerMain(e Engine, opt RunOpt, seed uint64, start, stride, count, offset 
 			break
 		}
 		idx := offset + i
+		inFlight = idx
+		wd.Reset(limit)
 		if progress != "" {
 			// which run is in flight: lets the controller attribute a dying worker
 			os.WriteFile(progress, []byte(strconv.Itoa(idx)), 0o644)
@@ -126,7 +142,9 @@ func RunLeg(propID string, seed uint64, leg *Leg, deadline time.Time, total *Agg
 			if !deadline.IsZero() {
 				args = append(args, "--deadline", strconv.FormatInt(deadline.Unix(), 10))
 			}
-			cmd := exec.Command(bin, args...)
+			ctx, cancel := context.WithTimeout(context.Background(), legTimeout(deadline))
+			defer cancel()
+			cmd := exec.CommandContext(ctx, bin, args...)
 			cmd.Env = append(os.Environ(), leg.Env...)
 			var so, se bytes.Buffer
 			cmd.Stdout, cmd.Stderr = &so, &se
@@ -181,6 +199,19 @@ func RunLeg(propID string, seed uint64, leg *Leg, deadline time.Time, total *Agg
 	}
 	sort.SliceStable(viol, func(i, j int) bool { return viol[i].Run < viol[j].Run })
 	return viol, nviolating, nil
+}
+
+// legTimeout: hard upper bound for one worker process (the search budget plus
+// grace); the per-run watchdog inside the worker normally fires long before.
+func legTimeout(deadline time.Time) time.Duration {
+	if deadline.IsZero() {
+		return 2 * time.Hour
+	}
+	d := time.Until(deadline) + 15*time.Minute
+	if d < 20*time.Minute {
+		d = 20 * time.Minute
+	}
+	return d
 }
 
 func tail(s string, n int) string {
